@@ -31,5 +31,12 @@ def run(tier, seed):
     for o in rx.obs:
         o.name = "C06/rx/" + o.name[4:]
     res.add(rx)
+    # the #line sub-scanner (outside the SMT subset): bounded enumeration of directive bodies, incl. digit sequences that
+    # CPython refuses to convert -- nothing but the error callback may come out of it
+    from props import ppline
+    pl = ppline.obligations(tier)
+    for o in pl.obs:
+        o.name = "C06/" + o.name
+    res.add(pl)
     res.assumptions.append("RecursionError on inputs nested deeper than the interpreter's recursion limit is tolerated by the property")
     return res
